@@ -217,7 +217,9 @@ CHECKS = {
              "region, full on the last region in resolution order, lite across all four); after every transition every known URL (plus a suffix) is resolved at "
              "manager, session and region level and every cap name is looked up in every region. A repeated-grants family grants one name 8x with distinct URLs per kind (NORMAL via update_caps / Seed response, WRAPPER, PROXY_ONLY then NORMAL, 1..8 "
              "one-shots consumed oldest-/newest-first per API) with the full resolve-everything sweep after each grant; an uploads family pushes, for every name in UPLOAD_CREATING_CAPS x region, 1..3 upload-creating "
-             "responses through the real _handle_response before any uploader is used and then resolves the uploader URLs in every order. The Seed request/response rewriting is additionally enumerated "
+             "responses through the real _handle_response before any uploader is used and then resolves the uploader URLs in every order; a shared-asset-urls family pushes Seed responses through the real event manager in which every "
+             "2-/3-/4-subset of GetMesh, GetMesh2, GetTexture, ViewerAsset shares one upstream URL (others absent or distinct): every presented asset URL must "
+             "resolve to its own <Cap>ProxyWrapper in the right region and session. The Seed request/response rewriting is additionally enumerated "
              "exhaustively over viewer lists x simulator grants behind 9 prefixes through the real event manager.",
         note="The simulator grants only names in the upstream request; Seed URLs unique per region; a live one-shot URL is not registered again; a URL extending several "
              "live grants may resolve to any of them ('extends' is textual), except wrapper URLs which must each resolve to their own region and session; an exception "
@@ -270,7 +272,8 @@ CHECKS = {
              "real proxy-side _pump_callbacks and request hook in the loop (only replay.client stubbed): every intercepted flow object resumed exactly once per "
              "interception, copies have fresh ids; preempt() after {never taken, taken and released in the hook, taken and released later}: exactly one preempt "
              "item carrying the injected response. Flows whose incoming state already carries a stale cap attribution (replays; consumed TEMPORARY cap) must be "
-             "handed back with what the URL resolves to now on both legs; wait_for() waiters that ended by timeout, cancellation or an earlier flow own nothing.",
+             "handed back with what the URL resolves to now on both legs; wait_for() waiters that ended by timeout, cancellation or an earlier flow own nothing; a flow that already has an owner is never handed to a second "
+             "taker (two hooks; session- and region-level waiters on the same flow).",
         note="Waiter ownership is taken from the public contract (dispatched to a default-take waiter means owned until its resume()). A taken, never-resumed flow stays with its taker; faults are Python exceptions at the listed points; pickling/OS-queue failure, a real mitmproxy master, TLS "
              "and sockets are out of scope; mitmproxy.ctx.master stubbed for replay/shutdown; ownership is per flow (first successful take() until the one successful resume()); "
              "includes the owner of a taken flow's cap data (region/session) being dropped and garbage-collected before release; wrapper-cap requests: an addon's "
@@ -288,15 +291,17 @@ CHECKS = {
              "well-formed; a stale poll repeats the immediately preceding ack; no two simulators share a seed URL; teardown may drop pending injections; injected events "
              "are only required to keep FIFO order among themselves; the wake-up PlacesQuery is observed, not demanded; 2-3 regions with independent event queues; "
              "announcements may reuse a known handle at a new address or a known address with a new handle; mid-poll teardown is enumerated once per region, for the "
-             "emptied-response and single-announcement answers; a region may be granted a second EventQueueGet URL (Seed re-fetch), later polls use the new URL."),
+             "emptied-response and single-announcement answers; a region may be granted a second EventQueueGet URL (Seed re-fetch), later polls use the new URL; a two-sessions search has two sessions whose regions share one circuit address, polls interleaved, oracle per (session, "
+             "region) queue."),
     "C19": dict(
         category="model_checking", design_ref="DESIGN.md §4 C19",
         technique="explicit-state BFS with deviation bounding over the real client endpoint under a virtual loop/clock (history-replay successors, canon-deduplicated "
                   "states, determinism rechecks) against a plain reference model",
         text="BFS over the real HippoClientProtocol.datagram_received, Session and Region handlers, Circuit and the resend task: every history up to 7 events (quick 5) "
              "with at most 3 deviations over peer packets id 1..3 x chat/ping x reliable/RESENT/duplicate/out-of-order/task-deferral, both ack forms for every subset of "
-             "outstanding ids plus stale and future ids, client reliable and unreliable sends, and ticks short of, past and across the retry budget, the caller cancelling a pending send's future (once per history), in five "
-             "subscriber/circuit configurations (a region unregistered and registered again at the same address with traffic on both sides; solo; shared Event; peer traffic on a not-yet-alive circuit across the handshake-completes transition; "
+             "outstanding ids plus stale and future ids, client reliable and unreliable sends, and ticks short of, past and across the retry budget, the caller cancelling a pending send's future (once per history), StartPingCheck packets whose OldestUnacked names any reliable id the peer "
+             "sent / its newest id / newest+1 followed by retransmissions, in six "
+             "subscriber/circuit configurations (queue-style subscribe_async subscribers at both levels fed packets with identical bodies under different ids; a region unregistered and registered again at the same address with traffic on both sides; solo; shared Event; peer traffic on a not-yet-alive circuit across the handshake-completes transition; "
              "self-unsubscribing subscribers -- wait_for, one_shot, handler returning True -- registered ahead of persistent ones on every Event at both levels; all "
              "asserted), plus PacketAck datagrams carrying body and appended ids in every "
              "split and client sends of Messages with a preset packet_id (0, last, last-1, last+50, a received message echoed back). Twelve oracle clauses against a reference model (always ack, dispatch at most once "
